@@ -97,6 +97,24 @@ def epic_dep_store(ctx):
     return st
 
 
+def half_claim_store(ctx):
+    """what a `claim` killed inside its write leaves: the claim line is whole, the state line is lost — a todo task that carries a claimant (not ready,
+    not in progress).  It is the only open task: every --ready view is empty and has to say so"""
+    st = Rec(ctx)
+    def new(kind, d):
+        return json.loads(st.exec(["--json", "new", kind], json.dumps(d).encode())["stdout"])["id"]
+    e = new("epic", {"title": "epic with a half-claimed task"})
+    a = new("task", {"title": "claimed, still todo", "epic": e})
+    b = new("task", {"title": "finished", "epic": e})
+    st.exec(["--json", "set", b], b'{"state":"done"}')
+    ts = "2026-01-01T00:00:00Z"
+    blob = json.dumps({"type": "claim", "ts": ts, "data": {"id": a, "agent_id": "cut-short", "ts": ts}}, separators=(",", ":")) + "\n" + '{"type":"state","ts":"%s","data":{"id":"%s","sta' % (ts, a)
+    with open(st.log_path(), "ab") as f:
+        f.write(blob.encode())
+    st.cmds.append({"edit": "lines appended to the log: a claim of %s whose write was cut inside the state line that follows (no newline)" % a, "bytes": blob})
+    return st
+
+
 def blocker_store(ctx, r):
     """blocked tasks whose own title takes up 30–70 columns, blocked by tasks with titles of 3–40 columns (ASCII and wide characters): the row has
     to fit the title, the `⧗ blocker` annotation and the id column whatever the proportions"""
@@ -205,6 +223,8 @@ def check_view(ctx, st, g, args, width, trace):
         ready = set(oracles.ready_order(g))
         if shown_tasks != ready:
             ctx.violation("C19 --ready does not show exactly the ready tasks", "shown %s ready %s" % (sorted(shown_tasks), sorted(ready)), {"trace": trace + [info]}); return True
+    if "--ready" in args and not shown_tasks and not any(s_ in text for s_ in ("No ready tasks.", "No ready tasks in this epic.", "No tasks in this epic.", "No tasks.")):
+        ctx.violation("C19 empty view prints nothing", "%s shows no task and none of the documented sentences: %r" % (name, text[:160]), {"trace": trace + [info]}); return True
     if not rows:
         sentences = ("No tasks.", "No ready tasks.", "No active tasks.", "No epics.", "No tasks in this epic.", "No ready tasks in this epic.")
         if not any(s in text for s in sentences) and (args != [] or live_tasks):
@@ -267,12 +287,13 @@ def run(ctx):
     r = gen.Rng(ctx.seed * 1000003 + 19)
     widths = [None, 14, 16, 20, 40, 80, 132, 240]
     for h in range(9 if ctx.quick else 80):
-        st = profile_store(ctx) if h == 0 else epic_dep_store(ctx) if h == 1 else blocker_store(ctx, r.fork()) if h == 2 else build_store(ctx, r.fork())
+        st = profile_store(ctx) if h == 0 else epic_dep_store(ctx) if h == 1 else blocker_store(ctx, r.fork()) if h == 2 else half_claim_store(ctx) if h == 3 else build_store(ctx, r.fork())
         try:
             g = st.graph()["graph"]
             trace = list(st.cmds)
             stop = False
-            for args in ([], ["--all"], ["--ready"], ["--epics"]):
+            epics_ = [t["id"] for t in g["tasks"] if t["is_epic"]][:2]
+            for args in [[], ["--all"], ["--ready"], ["--epics"]] + [["--epic", e_, "--ready"] for e_ in epics_]:
                 for w in (widths if not ctx.quick else [None, r.pick([14, 15, 16, 17, 20, 24]), r.pick([40, 60, 80]), r.pick([100, 132, 240])]):
                     ctx.count(1, key=(" ".join(args), w))
                     if check_view(ctx, st, g, args, w, trace):
